@@ -14,8 +14,7 @@ mod __verif_shift {
     #[kani::proof]
     fn k_shift_rem() {
         let n: u32 = kani::any(); let p: u32 = kani::any(); let k: u32 = kani::any();
-        let in_band = p != 0 && k != 0 && p <= n && (n as u64) < p as u64 + k as u64;
-        kani::assume(k == 0 || (p >= 1 && !in_band));
+        kani::assume(k == 0 || n < p || n >= k);   // weakest precondition: the subtraction does not underflow
         let r = adjustment_remove_coordinate(&n, &p, &k);
         let expect = if k != 0 && n >= p { n - k } else { n };
         assert!(r == expect);
